@@ -288,7 +288,7 @@ func (in *Interp) getPath(v Value, path []int) Value {
 			if t, isT := v.(*Term); isT && t.w == 256 {
 				a = in.toRawLimbs(t).(*Agg) // limb access into an abstract field element (concrete only)
 			} else {
-				panic(fmt.Sprintf("getPath: not an aggregate: %T", v))
+				panic(fmt.Sprintf("getPath: not an aggregate: %T%s", v, in.where()))
 			}
 		}
 		v = a.e[i]
